@@ -453,8 +453,17 @@ def c18_features(hist, reps):
     f = set()
     dup_ids, deleted, started_in = set(), set(), {}
     registered = set()
-    for q, a in zip(hist, reps):
+    prev = None
+    for n, (q, a) in enumerate(zip(hist, reps)):
         op = q['op']
+        if op == 'delete' and q['k'] == 'F':
+            if n == 0:
+                f.add('first-delete-unknown')
+            if prev is not None and prev[0]['op'] == 'create' and prev[1] == 'ValueError':
+                f.add('delete-unknown-after-dup')
+        if op == 'start' and a != 'started' and q['id'] in deleted:
+            f.add('start-in-deleted')
+        prev = (q, a)
         if op == 'create':
             if a == 'ValueError':
                 f.add('dup')
@@ -517,7 +526,28 @@ def c18_select(paths, k, rng):
         used.add(best)
         chosen.append(pool[best])
         count.update(feats[best])
+    # request shapes the client API never produces by itself are always played, several times
+    for must, times in (('first-delete-unknown', 3), ('delete-unknown-after-dup', 3), ('start-in-deleted', 2)):
+        for i, fs in enumerate(feats):
+            if count[must] >= times:
+                break
+            if must in fs and i not in used:
+                used.add(i)
+                chosen.append(pool[i])
+                count.update(fs)
     return chosen, dict(count)
+
+
+def c18_idmap(hist, reps, n, tier):
+    """Concretise the model's abstract ids 1..3: one of them becomes a falsy context id (0; '' too in the
+    thorough tier) - alternately the id most workers are started in and the id most often named while unknown."""
+    started = collections.Counter(q['id'] for q, a in zip(hist, reps) if q['op'] == 'start' and a == 'started')
+    unknown = collections.Counter(q['id'] for q, a in zip(hist, reps) if q['op'] in ('start', 'delete') and q['k'] == 'F')
+    pref = started if (n % 2 == 0 and started) or not unknown else unknown
+    special = max((1, 2, 3), key=lambda i: (pref[i], started[i] + unknown[i], -i))
+    falsy = '' if (tier == 'thorough' and n % 4 >= 2) else 0
+    rest = iter((7, 8))
+    return {str(i): (falsy if i == special else next(rest)) for i in (1, 2, 3)}
 
 
 def c18_signature(rec, clauses):
@@ -526,7 +556,10 @@ def c18_signature(rec, clauses):
     for n, q in enumerate(h):
         got = reps[n] if n < len(reps) else 'missing'
         if n < len(model) and got != model[n]:
-            return 'C18|%s|op=%s|known=%s|got=%s' % ('+'.join(sorted(clauses)), q['op'], q['k'], got.split(':')[0] if got.startswith('v:') else got)
+            im = (rec.get('notes') or {}).get('idmap') or {}
+            cid = im.get(str(q['id'])) if q['id'] else im.get(str(next((p['id'] for p in h if p['op'] == 'start' and p['w'] == q['w']), 0)))
+            return 'C18|%s|op=%s|known=%s|ctxid=%s|got=%s' % ('+'.join(sorted(clauses)), q['op'], q['k'], 'falsy' if cid in (0, '') else 'truthy',
+                                                            got.split(':')[0] if got.startswith('v:') else got)
     if any(rec['obs']['live']):
         return 'C18|%s|op=delete|workers-left-alive' % '+'.join(sorted(clauses))
     return 'C18|%s|srv_alive=%s|fresh=%s' % ('+'.join(sorted(clauses)), rec['obs']['srv_alive'], [x['got'] for x in rec['obs']['fresh']])
@@ -541,7 +574,7 @@ def run_c18(tier, replay):
 
     if replay is not None:
         streams, pos, lens = record(logdir)
-        rec = R.scenario_c18(dict(id='replay', hist=replay['replay']['hist'], upayload=streams['uctxworker'][1],
+        rec = R.scenario_c18(dict(id='replay', hist=replay['replay']['hist'], idmap=replay['replay'].get('idmap'), upayload=streams['uctxworker'][1],
                                   upos=[p for p in pos['uctxworker'] if p[0] == 1], logdir=logdir))
         fails, _ = tlc.judge('ServerJudge', [{k: rec[k] for k in ('id', 'prop', 'scn', 'obs')}], name='replay')
         print('replayed:', json.dumps({'scn': rec['scn'], 'obs': rec['obs'], 'notes': rec['notes']}))
@@ -582,8 +615,9 @@ def run_c18(tier, replay):
         paths[h] = (json.loads(h), json.loads(r_), json.loads(lv))
     k = 40 if tier == 'quick' else 600
     chosen, featcount = c18_select(paths.values(), k, rng)
-    tasks = [dict(id='h%d' % i, hist=h, upayload=streams['uctxworker'][1], upos=[p for p in pos['uctxworker'] if p[0] == 1], logdir=logdir)
-             for i, (h, _, _) in enumerate(chosen)]
+    tasks = [dict(id='h%d' % i, hist=h, idmap=c18_idmap(h, mr_, i, tier), upayload=streams['uctxworker'][1],
+                  upos=[p for p in pos['uctxworker'] if p[0] == 1], logdir=logdir)
+             for i, (h, mr_, _) in enumerate(chosen)]
     recs = R.pool_map('scenario_c18', tasks, logdir, nproc=12)
     for x, (h, mr, ml) in zip(recs, chosen):
         x['model_rep'], x['model_live'] = mr, ml
@@ -619,13 +653,14 @@ def run_c18(tier, replay):
     for rid, clauses in byid.items():
         x = recmap[rid]
         sig = c18_signature(x, clauses)
+        im = x['notes']['idmap']
         what = ('%s violated by history %s: replies %s (dictionary model: %s), alive after deletes %s, server alive=%s, fresh=%s%s'
-                % (','.join(sorted(clauses)), ['%s(%s)' % (q['op'], q['id'] or 'w%d' % q['w']) for q in x['scn']['hist']],
+                % (','.join(sorted(clauses)), ['%s(%s)' % (q['op'], ('ctx %r' % (im[str(q['id'])],)) if q['id'] else 'w%d' % q['w']) for q in x['scn']['hist']],
                    x['obs']['rep'], x['model_rep'], x['obs']['live'], x['obs']['srv_alive'], [y['got'] for y in x['obs']['fresh']],
                    ('; server log: ' + x['notes']['server_error']) if x['notes'].get('server_error') else ''))
-        violations.append(Violation('C18', sig, what, {'kind': 'C18', 'hist': x['scn']['hist']}))
+        violations.append(Violation('C18', sig, what, {'kind': 'C18', 'hist': x['scn']['hist'], 'idmap': x['notes']['idmap']}))
 
-    violations = confirm(ev, 'C18', violations, lambda rp, i: dict(id=i, hist=rp['hist'], upayload=streams['uctxworker'][1],
+    violations = confirm(ev, 'C18', violations, lambda rp, i: dict(id=i, hist=rp['hist'], idmap=rp.get('idmap'), upayload=streams['uctxworker'][1],
                                                                   upos=[p_ for p_ in pos['uctxworker'] if p_[0] == 1], logdir=logdir),
                          'scenario_c18', c18_signature, logdir)
 
@@ -675,6 +710,8 @@ def run_c18(tier, replay):
     ev.assumptions += ['requests of one history are issued sequentially by one client (each API call returns before the next is made)',
                        'the worker handshake inside a context is one step of this model (its faults are C11\'s subject)',
                        'a worker request naming an unknown context is sent by a raw-socket client; its outcome is read at the end of the history (any byte received = a reply)',
+                       'a delete of an id the client holds no live context object of (unknown, already deleted, refused duplicate) is sent raw - the API never sends one; selected histories always include one as the very first request and one right after a refused duplicate',
+                       'the abstract ids 1..3 of the model are concretised per history with one falsy context id (0; also the empty string in the thorough tier) and two truthy ones',
                        'real histories are sampled from TLC\'s simulation (seeded), the model is exhaustive up to length 7 (8 in the thorough tier)']
     return finish(ev, violations, T.s(), drift)
 
